@@ -162,6 +162,7 @@ class Inbound:
         # Process the answer section (other than the initial SOA in
         # the first message).
         #
+        commit = False
         for rrset in message.answer[answer_index:]:
             name = rrset.name
             rdataset = rrset
@@ -193,8 +194,9 @@ class Inbound:
                     if self.incremental and self.serial != soa.serial:
                         raise dns.exception.FormError("unexpected end of IXFR sequence")
                     self.txn.replace(name, rdataset)
-                    self.txn.commit()
-                    self.txn = None
+                    # Commit only after the rest of the message has been checked, so
+                    # that a message with records after the final SOA changes nothing.
+                    commit = True
                     self.done = True
                 else:
                     #
@@ -243,6 +245,10 @@ class Inbound:
                 self.txn.delete_exact(name, rdataset)
             else:
                 self.txn.add(name, rdataset)
+        if commit:
+            assert self.txn is not None  # for mypy
+            self.txn.commit()
+            self.txn = None
         if self.is_udp and not self.done:
             #
             # This is a UDP IXFR and we didn't get to done, and we didn't
